@@ -10,9 +10,11 @@ import (
 
 type V string
 
-func I(n int64) V       { return V("i" + strconv.FormatInt(n, 10)) }
-func B(b []byte) V      { return V("x" + hex.EncodeToString(b)) }
-func S(s string) V      { return B([]byte(s)) }
+func (v V) String() string { return string(v) }
+
+func I(n int64) V  { return V("i" + strconv.FormatInt(n, 10)) }
+func B(b []byte) V { return V("x" + hex.EncodeToString(b)) }
+func S(s string) V { return B([]byte(s)) }
 func Bool(b bool) V {
 	if b {
 		return I(1)
@@ -36,6 +38,6 @@ func Strs(ss []string) V {
 	}
 	return L(vs...)
 }
-func Ok(vs ...V) V  { return L(append([]V{I(0)}, vs...)...) }
-func Err() V        { return L(I(-1)) }
-func Panic() V      { return L(I(-2)) }
+func Ok(vs ...V) V { return L(append([]V{I(0)}, vs...)...) }
+func Err() V       { return L(I(-1)) }
+func Panic() V     { return L(I(-2)) }
